@@ -25,6 +25,7 @@ EXPLANATION = (
     "A9 succ/2 and plus/3, per call mode of their check_mode tables and folded on sample tuples inside and outside the relation: the all-bound mode succeeds "
     "exactly on tuples of the relation (B = A + 1; C = A + B), each generating mode computes the free argument so that the relation holds. "
     "A4 (error conversion) is decided under C27/E4. Numeric results for all operands and float formatting are value-level and not decided."
+    " Added after seed round 6: A10 arg/3 folded for N = 0..3 on a term of arity 2: positions 1..arity select args[N-1], everything else fails."
 )
 TECHNIQUE = "static analysis: documentation/table agreement, abstract operator semantics vs frozen Prolog table, call-mode table consistency"
 LEVEL_TEXT = EXPLANATION
